@@ -338,7 +338,8 @@ pub fn sched(input: &str, out: &mut impl std::io::Write) {
     }
     tr.resume();
     // both must finish
-    let dl = Instant::now() + Duration::from_millis(1200);
+    let mut dl = Instant::now() + Duration::from_millis(1200);
+    let hard = Instant::now() + Duration::from_secs(15);
     loop {
         let fa = done_a.lock().unwrap().is_some();
         let fb = done_b.lock().unwrap().is_some();
@@ -346,6 +347,19 @@ pub fn sched(input: &str, out: &mut impl std::io::Write) {
             break;
         }
         if Instant::now() > dl {
+            // a deadlock means: every unfinished thread is waiting for a lock. A thread that is
+            // merely slow (loaded machine) is not waiting; give it more time.
+            let stuck = (fa || tr.waiting_on(1).is_some()) && (fb || tr.waiting_on(2).is_some());
+            if !stuck && Instant::now() < hard {
+                dl = Instant::now() + Duration::from_millis(500);
+                continue;
+            }
+            if !stuck {
+                writeln!(out, "SCHED reached={} b_blocked={} deadlock=0 timeout=1", reached as u8, b_blocked as u8).unwrap();
+                writeln!(out, "END").unwrap();
+                out.flush().unwrap();
+                std::process::exit(0);
+            }
             let r = roles();
             let name = |l: usize| r.get(&l).cloned().unwrap_or_else(|| format!("?{:x}", l));
             let desc = |tid: usize| {
